@@ -66,14 +66,6 @@ def inCheck (b : RBoard) (p : Player) : Bool :=
   | some k => attacked b p.other k
   | none => false
 
-def promoRank : Player → Nat
-  | .white => 7
-  | .black => 0
-
-def startRank : Player → Nat
-  | .white => 1
-  | .black => 6
-
 def allPromos : List Promo := [.queen, .rook, .bishop, .knight]
 
 /-- slider destinations along one ray: empty squares, then possibly one capture -/
